@@ -26,6 +26,7 @@ class WriteGate:
         self.budget = None
         self.count = 0
         self.real = None
+        self.trace = None       # when a list: (file name, number of ended trials in the object) of every write that happened
 
     def install(self):
         from keras_tuner import utils
@@ -38,6 +39,8 @@ class WriteGate:
                     raise Crash()
                 gate.budget -= 1
             gate.count += 1
+            if gate.trace is not None:
+                gate.trace.append((os.path.basename(path), len(obj.get("end_order", [])) if isinstance(obj, dict) else 0))
             return gate.real(path, obj)
 
         utils.save_json = save_json
